@@ -75,12 +75,15 @@ def compile_tu(text, flags, extra=(), std=None, want='ll'):
         src = f.name
     tmp = ll + '.tmp%d' % os.getpid()
     try:
-        p = subprocess.run(['clang++'] + fl + ['-I', os.path.join(REPO, 'include'), src, '-o', tmp],
+        p = subprocess.run(['clang++'] + fl + ['-ftemplate-backtrace-limit=0', '-I', os.path.join(REPO, 'include'), src, '-o', tmp],
                            stdout=subprocess.PIPE, stderr=subprocess.PIPE, universal_newlines=True)
         if p.returncode != 0:
+            # keep the attribution of the diagnostics (the temporary file name is gone after this call)
+            bad = attribute_errors(p.stderr, text, src)
+            msg = 'ATTRIBUTED:' + json.dumps(bad) + '\n' + p.stderr
             with open(errp, 'w') as f:
-                f.write(p.stderr)
-            return None, p.stderr
+                f.write(msg)
+            return None, msg
         os.rename(tmp, ll)
         return ll, p.stderr
     finally:
@@ -89,9 +92,30 @@ def compile_tu(text, flags, extra=(), std=None, want='ll'):
             os.unlink(tmp)
 
 
+def attribute_errors(stderr, text, src):
+    """map clang diagnostics to the one-line wrappers of a TU: an error located on a wrapper line, or a
+    note on a wrapper line ("in instantiation of ... requested here") after an error in a header"""
+    import re
+    bad = {}
+    lines = text.split('\n')
+    last_err = None
+    for l in stderr.split('\n'):
+        m = re.match(r'^(.*?):(\d+):(\d+): (fatal error|error|note): (.*)$', l)
+        if not m:
+            continue
+        f_, ln, kind, msg = m.group(1), int(m.group(2)), m.group(4), m.group(5)
+        if kind != 'note':
+            last_err = msg
+        if f_ == src and ln - 1 < len(lines):
+            mm = re.search(r'\b([ks]_[A-Za-z0-9_]+)\s*\(', lines[ln - 1])
+            if mm:
+                bad.setdefault(mm.group(1), last_err or msg)
+    return bad
+
+
 def syntax_check(text, flags, std=None):
     """front-end only; returns list of wrapper names whose definition produced an error."""
-    fl = ['-std=' + (std or 'c++11'), '-fsyntax-only', '-ferror-limit=0', '-UNDEBUG', '-Wno-argument-outside-range', '-w'] + list(flags)
+    fl = ['-std=' + (std or 'c++11'), '-fsyntax-only', '-ferror-limit=0', '-ftemplate-backtrace-limit=0', '-UNDEBUG', '-Wno-argument-outside-range', '-w'] + list(flags)
     os.makedirs(CACHE, exist_ok=True)
     key = hashlib.sha256((headers_hash() + '\0syn\0' + text + '\0' + ' '.join(fl)).encode()).hexdigest()[:32]
     cp = os.path.join(CACHE, key + '.syn')
